@@ -882,9 +882,14 @@ def rule_k17(repo):
     for name, (fn, tag, _row) in sorted(rows.items()):
         func = repo.func(THM, fn)
         cfg = cfg_of(func.node)
+        kflow = flow_of(func.node)
+
+        def denotes_prop(e, p):
+            # `th.prop`, or a local that was given that value once (eq1 = th1.prop)
+            return path_of(e) == p + '.prop' or path_of(kflow.inline(e)) == p + '.prop'
         for p in theorem_params(func):
             sites = [n for n in cfg.nodes if n.ast is not None and n.kind in ('stmt', 'test', 'return') and any(
-                isinstance(a, ast.Attribute) and a.attr in POS and path_of(a.value) == p + '.prop'
+                isinstance(a, ast.Attribute) and a.attr in POS and denotes_prop(a.value, p)
                 for h in cfg.headers(n) for a in ast.walk(h))]
             if not sites:
                 continue
@@ -893,7 +898,7 @@ def rule_k17(repo):
             def head(e, pol, p=p):
                 if not pol or not isinstance(e, ast.Call) or not isinstance(e.func, ast.Attribute) or not e.func.attr.startswith('is_') or e.args:
                     return False
-                if path_of(e.func.value) == p + '.prop':
+                if denotes_prop(e.func.value, p):
                     return True
                 if is_name(e.func.value, p):
                     ok = about_prop(e.func.attr)
